@@ -38,6 +38,7 @@ type vpRunRec struct {
 	Procs            int      `json:"procs"`
 	After            []string `json:"after"`
 	AfterReturned    bool     `json:"afterReturned"`
+	Offline          bool     `json:"offline"`
 }
 
 func TestVerifPoolRun(t *testing.T) {
@@ -146,8 +147,14 @@ func TestVerifPoolRun(t *testing.T) {
 			r.DelayUs = 2000 + rng.Intn(8000)
 		}
 		runDone := make(chan struct{})
+		// one lifetime in five is the "no incoming connections" mode: requests are processed, nothing listens
+		r.Offline = rng.Intn(5) == 0
 		go func() {
-			_ = p.Run()
+			if r.Offline {
+				_ = p.RunOffline()
+			} else {
+				_ = p.Run()
+			}
 			close(runDone)
 		}()
 		var mu sync.Mutex
